@@ -197,7 +197,28 @@ CHECKS["C19"] = dict(
 )
 
 NOT_YET = "check not built yet (work in progress; see DESIGN.md section 11 for the order)"
-NA = {}
+NA = {
+    "C04": "Needs the dispatcher, emitter and API threads of BaseObserver over the interpreted event queue under the symbolic "
+           "scheduler (Engine B). The queue part (coalescing, FIFO, exactly-once under producer/consumer interleavings) is "
+           "decided by the C16 check and the re-entrant/concurrent removal part by the C05 check; the full multi-watch, "
+           "multi-emitter program of the statement was not encoded within reach in the time available (the scheduler "
+           "unrolling needed for observer + emitters + API threads did not finish building). No other technique was "
+           "substituted.",
+    "C05": "Not built: see C04 (same program family).",
+    "C06": "Attempted (vf/props/c06.py): the symbolic-scheduler unrolling of start/schedule/stop/join over BaseObserver, "
+           "EventEmitter, InotifyBuffer and the delayed queue needs more than 60 scheduler steps for the smallest "
+           "interesting program and its encoding did not finish building within an hour; deadlock freedom of the parts is "
+           "covered where it could be encoded (C12 close/read, C17 delayed queue, C18 debouncer). Liveness of the whole "
+           "observer is outside the reach of the bounded encoding available here.",
+    "C08": "Attempted (vf/props/c08.py): InotifyBuffer.run + _group_events + DelayedQueue with reader, consumer and closer "
+           "threads under the symbolic scheduler and clock; the encoding of the smallest program with a cross-batch rename "
+           "pair did not finish building. The delay-queue guarantees it rests on are decided by C17, the sequential "
+           "grouping of one batch is exercised by the history checks (C01-C03, C07, C19).",
+    "C20": "The Windows and FSEvents emitters import platform libraries (ctypes.windll / _watchdog_fsevents) that cannot be "
+           "loaded on this Linux image, and their decoders work on raw memory through ctypes (cast/addressof/string_at), "
+           "which the symbolic VM cannot interpret and CrossHair realises; no symbolic encoding of that code was within "
+           "reach.",
+}
 
 
 def main():
